@@ -218,6 +218,12 @@ def _gnn(m, opts):
     params = dict(dims=[4, n_classes], verbose=False)
     params.update(opts.get('params', {}))
     rs = params.pop('random_state', None)
+    if params.pop('explicit_layers', False):
+        # layers given as objects, messages passed along the raw adjacency (normalization 'none') plus self-embeddings
+        from sknetwork.gnn.layer import Convolution
+        params = dict(layers=[Convolution('conv', 4, normalization='none'),
+                              Convolution('conv', n_classes, normalization='none', activation='softmax', loss='CrossEntropy')],
+                      verbose=False)
     holder = opts.get('__holder__')
     if holder is not None and 'est' in holder:
         gnn = holder['est']
@@ -239,6 +245,11 @@ reg('GNNClassifier', ['sym'], _gnn, seeds='labels', equiv=False, seeded='random_
 # adjacency at every epoch (seed C01_5: a non-copying constructor made that working copy the caller's own matrix)
 reg('GNNClassifier[sage]', ['sym'],
     lambda m, o: _gnn(m, dict(o, params=dict(o.get('params', {}), layer_types='Sage', sample_sizes=1))),
+    seeds='labels', equiv=False, seeded='random_state', cls=None, fn=None)
+# layers passed as objects, without normalisation of the adjacency: add_self_loops then acts on the caller's own entry type
+# (seed C01_7: on a bool matrix a node with a self-loop kept weight 1 where the int / float matrix has 2)
+reg('GNNClassifier[layers]', ['sym'],
+    lambda m, o: _gnn(m, dict(o, params=dict(o.get('params', {}), explicit_layers=True))),
     seeds='labels', equiv=False, seeded='random_state', cls=None, fn=None)
 # ---- link prediction
 reg('NNLinker', ['sq', 'bip'], _est(L.NNLinker, None, {'links_': 'mat'}, dict(n_neighbors=3)), cls=L.NNLinker, equiv=False)
